@@ -858,7 +858,9 @@ func JudgeCluster(sc *ClusterScenario, tr *Trace) ([]pbt.Violation, ClusterStats
 						maxDelay = d
 					}
 				}
-				inFlight := a.Inst != prev.Inst && a.T.Sub(prev.Done) <= maxDelay
+				// (the excuse is for an instance that sat through its whole cluster wait and still could not have
+				// the entry yet; one that sends before its wait is over gets none)
+				inFlight := a.Inst != prev.Inst && a.T.Sub(prev.Done) <= maxDelay && waitedFull(a)
 				if !justified && !inFlight && !eligibleEmpty(a.RouteID, a.GroupKey, prev.Done, a.T) {
 					// root-cause fact for finding F15: while a later-positioned instance sat in its cluster wait
 					// another instance delivered, and after the wait the waiting instance wrote its (older)
@@ -1145,6 +1147,9 @@ func GenClusterScenario(t *rapid.T, healthy bool) ClusterScenario {
 	}
 	pt := sampled(t, "pt", 5, 15)
 	sc.Opts = Options{Retention: 2*maxRI + maxGI + 3600, AlertGC: sampled(t, "agc", 300, 1800), DispMaint: 30, Maint: sampled(t, "maint", 300, 900), PeerTimeout: pt}
+	// a third of the runs: the dispatchers start a while after the processes (cmd/alertmanager waits for the gossip to
+	// settle); alerts posted before that are grouped but their flushes begin late, with the old timer expiry as tick
+	sc.Opts.StartDelay = sampled(t, "startDelay", 0, 0, 0, 0, 20, 45)
 	perm := rapid.Permutation(func() []int {
 		p := make([]int, sc.N)
 		for i := range p {
